@@ -162,14 +162,20 @@ func H_C14_strategies() {
 // H_C14_immediate: immediate functions reject ASYNC, SPIN and SPINASYNC.
 func H_C14_immediate() {
 	qual := verif.Choose("qualifier", 6)
-	fn := verif.Choose("func", 8)
+	fn := verif.Choose("func", 11)
 	doc, _ := numTable(1, "a")
 	// functions registered as immediate by the caller, under names of any case
 	RegisterImmediateFunction("vimm", idFunc)
 	RegisterImmediateFunction("MixedCase", idFunc)
 	RegisterImmediateFunction("UPPER_IMM", idFunc)
+	// names that were ordinary functions before they were registered as immediate
+	RegisterFunction("vswitch", idFunc)
+	RegisterImmediateFunction("vswitch", idFunc)
+	RegisterImmediateFunction("concat", ConcatFunc)
+	RegisterExternalFunction("vext", func(args []any) (any, error) { return nil, nil })
+	RegisterImmediateFunction("vext", idFunc)
 	q := []string{"ASYNC.", "SPIN.", "SPINASYNC.", "async.", "Spin.", "SpinAsync."}[qual]
-	f := []string{"TO_LOWER('x')", "GETVAR('k')", "CONSTANT('k')", "vimm(a)", "MixedCase(a)", "mixedcase(a)", "UPPER_IMM(a)", "Upper_Imm(a)"}[fn]
+	f := []string{"TO_LOWER('x')", "GETVAR('k')", "CONSTANT('k')", "vimm(a)", "MixedCase(a)", "mixedcase(a)", "UPPER_IMM(a)", "Upper_Imm(a)", "vswitch(a)", "CONCAT(a, a)", "vext(a)"}[fn]
 	_, err := runQueryQuiet(doc, "SELECT "+q+f+" AS v FROM t", WithVars(map[string]any{}), WithConstants(map[string]any{"k": 1.0}))
 	verif.Assert(err != nil, "immediate-rejects-qualifier")
 	verif.Reach("end")
